@@ -137,6 +137,9 @@ func init() {
 		}
 	}
 	intrinsicsByName["github.com/cosmos/cosmos-sdk/types.UnwrapSDKContext"] = func(e *Env, st *State, args []Val, rt types.Type, c *ssa.CallCommon) []Out {
+		if args[0].K == kIface && args[0].Inner != nil && args[0].Inner.K == kCtx {
+			return one(st, *args[0].Inner)
+		}
 		t := e.term(st, args[0])
 		if v, ok := e.unwrapped[t]; ok {
 			return one(st, v)
